@@ -309,3 +309,79 @@ def check_driver_index(prog, report):
                  fi.where(solve) if solve else fi.where(loop),
                  'Phi solves mat Phi = rhs with mat rows = test',
                  construct='example: solve arguments')
+
+
+# --------------------------------------------------------------------------
+# R-scalar on the residual: data callables return rank 0 into result[i]
+# --------------------------------------------------------------------------
+def shipped_data_ranks(prog):
+    """Rank of the value returned by every shipped M0u0 / g when called as
+    the residual calls them: (t: rank 0, xy: rank 2 (2x1 array))."""
+    from .quadtree import RankEval
+    PR = 'problems.py'
+    m = prog.module(PR)
+    out = {'M0u0': {}, 'g': {}}
+    for q, fi in m.funcs.items():
+        if q.endswith('.M0u0'):
+            ev = RankEval(fi, None)
+            ev.env = {fi.params[0]: {0}, fi.params[1]: {2}}
+            ret = None
+            for st in fi.node.body:
+                if isinstance(st, ast.Assign):
+                    for t_ in st.targets:
+                        ev.assign(t_, st.value)
+                elif isinstance(st, ast.Return):
+                    ret = ev.rank(st.value)
+            out['M0u0'][q] = ret
+    fi = prog.func(PR, 'problem_helper')
+    for n in ast.walk(fi.node):
+        if isinstance(n, ast.Assign) and isinstance(
+                n.targets[0], ast.Subscript) and isinstance(
+                    n.targets[0].slice, ast.Constant) and \
+                n.targets[0].slice.value == 'g' and isinstance(
+                    n.value, ast.Lambda):
+            lam = n.value
+            ev = RankEval(fi, None)
+            ev.env = {lam.args.args[0].arg: {0}, lam.args.args[1].arg: {2}}
+            out['g']['g@%d' % n.lineno] = ev.rank(lam.body)
+    return out
+
+
+def check_residual_ranks(prog, report):
+    from .quadtree import RankEval
+    fi = prog.func(EE, 'ErrorEstimator.residual.residual')
+    ranks = shipped_data_ranks(prog)
+    if not ranks['M0u0'] or not ranks['g']:
+        raise AnalysisError('problems.py: shipped data not found')
+    for name in ('M0u0', 'g'):
+        rs = ranks[name]
+        if any(r is None for r in rs.values()):
+            raise AnalysisError('rank of shipped %s undetermined: %s' %
+                                (name, rs))
+        worst = set().union(*rs.values())
+        stores = [n for n in ast.walk(fi.node) if isinstance(
+            n, (ast.AugAssign, ast.Assign)) and any(
+                isinstance(m, ast.Call) and text(m.func) == name
+                for m in ast.walk(n.value))]
+        if not stores:
+            raise AnalysisError('%s: use of %s not found' %
+                                (fi.where(), name))
+        for st in stores:
+            tgt = st.target if isinstance(st, ast.AugAssign) else \
+                st.targets[0]
+            ev = RankEval(fi, None)
+            ev.hooks = {name: worst}
+            r = ev.rank(st.value)
+            scalar_slot = isinstance(tgt, ast.Subscript)
+            report.check(
+                r is not None and (not scalar_slot or r == {0}), 'R-scalar',
+                'residual stores %s' % name, fi.where(st),
+                'a value added to the scalar slot result[i] must have rank '
+                '0: NumPy >= 2 refuses to store a 1-element array of rank '
+                '>= 1 into an array element.  The shipped %s return rank %s '
+                'for a 2x1 point (%s); after the wrapping at this site the '
+                'rank is %s' % (name, sorted(worst),
+                                {k: sorted(v) for k, v in rs.items()},
+                                sorted(r) if r else r),
+                construct='ErrorEstimator.residual: rank of %s stored into '
+                'result[i]' % name)
